@@ -222,6 +222,51 @@ def accum (f : UnitDB → Nat) (slot : Nat → Nat) : List UnitDB → Nat → Li
     | some acc' => accum f slot us (i + 1) acc'
     | none => .error .indexOutOfRange
 
+/-! `accum` walks a list for every `acc[i] += x`; the compiled driver uses the
+array version below instead, which is proved equal (`@[csimp]`, kernel-checked —
+no trust added). -/
+
+theorem addAt_eq (acc : List Nat) (k x : Nat) :
+    addAt acc k x = if h : k < acc.length then some (acc.set k (acc[k] + x)) else none := by
+  induction acc generalizing k with
+  | nil => simp [addAt]
+  | cons a rest ih =>
+    cases k with
+    | zero => simp [addAt]
+    | succ k =>
+      simp only [addAt, ih]
+      by_cases h : k < rest.length <;> simp [h]
+
+def accumA (f : UnitDB → Nat) (slot : Nat → Nat) : List UnitDB → Nat → Array Nat → Except Fault (Array Nat)
+  | [], _, acc => .ok acc
+  | u :: us, i, acc =>
+    if h : slot i < acc.size then accumA f slot us (i + 1) (acc.set (slot i) (acc[slot i] + f u))
+    else .error .indexOutOfRange
+
+def accumFast (f : UnitDB → Nat) (slot : Nat → Nat) (us : List UnitDB) (i : Nat) (acc : List Nat) :
+    Except Fault (List Nat) :=
+  match accumA f slot us i acc.toArray with
+  | .ok a => .ok a.toList
+  | .error e => .error e
+
+theorem accum_eq_fast (f : UnitDB → Nat) (slot : Nat → Nat) (us : List UnitDB) (i : Nat) (acc : List Nat) :
+    accum f slot us i acc = accumFast f slot us i acc := by
+  induction us generalizing i acc with
+  | nil => simp [accum, accumFast, accumA]
+  | cons u us ih =>
+    unfold accumFast
+    simp only [accum, accumA, addAt_eq]
+    by_cases h : slot i < acc.length
+    · simp only [h, dite_true, List.size_toArray]
+      rw [ih]
+      unfold accumFast
+      simp
+    · simp [h]
+
+@[csimp] theorem accum_csimp : @accum = @accumFast := by
+  funext f slot us i acc
+  exact accum_eq_fast f slot us i acc
+
 /-- `countHours(curHour, days)` -/
 def countHours (curHour days : Nat) : Nat :=
   let hoursInCurDay := if curHour % 24 = 0 then 24 else curHour % 24
